@@ -42,7 +42,8 @@ _real_isinstance = builtins.isinstance
 
 def _isinstance(obj, types):
     with NoTracing():
-        symbolic = _real_isinstance(obj, CrossHairValue) or _real_isinstance(types, CrossHairValue)
+        symbolic = (_real_isinstance(obj, CrossHairValue) or _real_isinstance(types, CrossHairValue)
+                    or type(obj).__module__.startswith('crosshair'))      # e.g. ShellMutableMap standing in for a dict
         if not symbolic and type(types) is tuple:
             for t in types:
                 if _real_isinstance(t, CrossHairValue):
